@@ -4,8 +4,10 @@
     [load sh to_real fix3 fix4 prefix defaults file env] is the loader of
     internal/config/parser up to the tree it hands to the decoder
     (defaults, then file, then environment).  [sh] is the iteration order of
-    every Go map on the way (any family of permutations, [perm_fun]);
-    [fix3 = fix4 = false] is the tree as it is.  [to_real] is the YAML typing of
+    every Go map on the way (any family of permutations, [perm_fun]).
+    [fix3] = the repair of C20-F3 (cleanSuffix merges same-named entries) is in
+    the code: /repo since 0f39207 is [fix3 = true], the model the check runs;
+    [fix4 = false]: C20-F4 is open.  [to_real] is the YAML typing of
     a scalar text (oracle).
 
     [view p t] is what a tree shows at path [p]; [spec_view d f tenv p] is the
@@ -13,43 +15,44 @@
     else the default's (lists grow to the longest).  [domain] is the property's
     domain for one load: values typed as scalars, well-formed names, well-formed
     trees, no two variables for one leaf, all sources agreeing on the shape at
-    every path, outside the shapes of the open findings C20-F3/C20-F4. *)
+    every path, outside the shape of the open finding C20-F4 and — only for
+    [fix3 = false], the code before the repair — of C20-F3. *)
 From HV Require Import Base.Prelude C20.Model C20.Spec C20.Facts C20.MergeProofs C20.LoadProofs C20.Proofs.
 From HV Require Import C20.SchemaModel C20.SchemaPinned Gen.SchemaTables C20.SchemaProofs C20.ScopeProofs C20.MergePanic C20.NamingProofs C20.SplitProofs.
 From Coq Require Import Permutation.
 Open Scope string_scope.
 
 Theorem C20_load_meets_spec :
-  forall sh to_real pfx d f env tenv,
-    perm_fun sh -> domain to_real pfx d f env tenv ->
-    exists t, load sh to_real false false pfx d (Some f) env = Ok t /\ Tidy (Map t) /\
+  forall sh fix3 to_real pfx d f env tenv,
+    perm_fun sh -> domain fix3 to_real pfx d f env tenv ->
+    exists t, load sh to_real fix3 false pfx d (Some f) env = Ok t /\ Tidy (Map t) /\
               forall p, view p (Map t) = spec_view d f tenv p.
 Proof. exact load_meets_spec_domain. Qed.
 Print Assumptions C20_load_meets_spec.
 
 Theorem C20_env_order_independent :
-  forall sh sh' to_real pfx d f env env' tenv,
+  forall sh sh' fix3 to_real pfx d f env env' tenv,
     perm_fun sh -> perm_fun sh' -> Permutation env env' ->
-    domain to_real pfx d f env tenv ->
-    exists t t', load sh to_real false false pfx d (Some f) env = Ok t /\
-                 load sh' to_real false false pfx d (Some f) env' = Ok t' /\
+    domain fix3 to_real pfx d f env tenv ->
+    exists t t', load sh to_real fix3 false pfx d (Some f) env = Ok t /\
+                 load sh' to_real fix3 false pfx d (Some f) env' = Ok t' /\
                  Tidy (Map t) /\ Tidy (Map t') /\
                  forall p, view p (Map t) = view p (Map t').
 Proof. exact env_order_independent. Qed.
 Print Assumptions C20_env_order_independent.
 
 Theorem C20_env_wins_per_leaf :
-  forall sh to_real pfx d f env tenv,
-    perm_fun sh -> domain to_real pfx d f env tenv ->
-    exists t, load sh to_real false false pfx d (Some f) env = Ok t /\
+  forall sh fix3 to_real pfx d f env tenv,
+    perm_fun sh -> domain fix3 to_real pfx d f env tenv ->
+    exists t, load sh to_real fix3 false pfx d (Some f) env = Ok t /\
               forall e, In e tenv -> view (fst e) (Map t) = NLeaf (snd e).
 Proof. exact env_wins_per_leaf. Qed.
 Print Assumptions C20_env_wins_per_leaf.
 
 Theorem C20_defaults_fill :
-  forall sh to_real pfx d f env tenv,
-    perm_fun sh -> domain to_real pfx d f env tenv ->
-    exists t, load sh to_real false false pfx d (Some f) env = Ok t /\
+  forall sh fix3 to_real pfx d f env tenv,
+    perm_fun sh -> domain fix3 to_real pfx d f env tenv ->
+    exists t, load sh to_real fix3 false pfx d (Some f) env = Ok t /\
               forall p, env_view tenv p = NNone ->
                         view p (Map t) = njoin (view p (Map d)) (view p (Map f)) /\
                         (view p (Map f) = NNone -> view p (Map t) = view p (Map d)).
@@ -57,12 +60,12 @@ Proof. exact defaults_fill. Qed.
 Print Assumptions C20_defaults_fill.
 
 Theorem C20_file_env_equivalent :
-  forall sh sh' to_real pfx d c f env tenv,
+  forall sh sh' fix3 to_real pfx d c f env tenv,
     perm_fun sh -> perm_fun sh' ->
-    domain to_real pfx d f env tenv -> domain to_real pfx d c [] [] ->
+    domain fix3 to_real pfx d f env tenv -> domain fix3 to_real pfx d c [] [] ->
     split_of c f tenv ->
-    exists t t', load sh to_real false false pfx d (Some f) env = Ok t /\
-                 load sh' to_real false false pfx d (Some c) [] = Ok t' /\
+    exists t t', load sh to_real fix3 false pfx d (Some f) env = Ok t /\
+                 load sh' to_real fix3 false pfx d (Some c) [] = Ok t' /\
                  Tidy (Map t) /\ Tidy (Map t') /\
                  forall p, view p (Map t) = view p (Map t').
 Proof. exact file_env_equivalent. Qed.
@@ -73,14 +76,14 @@ Print Assumptions C20_file_env_equivalent.
     lists, dropped keys in maps, also inside list elements), [sel_leaves sel]
     the selected leaves, given by variables in any order *)
 Theorem C20_file_env_equivalent_splits :
-  forall sh sh' to_real pfx d c sel env tenv,
+  forall sh sh' fix3 to_real pfx d c sel env tenv,
     perm_fun sh -> perm_fun sh' ->
-    domain to_real pfx d c [] [] ->
+    domain fix3 to_real pfx d c [] [] ->
     typed_env to_real (norm_env pfx env) = Some tenv ->
     Permutation tenv (sel_leaves sel (Map c)) ->
-    guard_F3 (norm_env pfx env) = false -> guard_F4 (norm_env pfx env) = false ->
-    exists t t', load sh to_real false false pfx d (Some (keep_map sel c)) env = Ok t /\
-                 load sh' to_real false false pfx d (Some c) [] = Ok t' /\
+    (fix3 = true \/ guard_F3 (norm_env pfx env) = false) -> guard_F4 (norm_env pfx env) = false ->
+    exists t t', load sh to_real fix3 false pfx d (Some (keep_map sel c)) env = Ok t /\
+                 load sh' to_real fix3 false pfx d (Some c) [] = Ok t' /\
                  Tidy (Map t) /\ Tidy (Map t') /\
                  forall p, view p (Map t) = view p (Map t').
 Proof. exact file_env_equivalent_splits. Qed.
@@ -126,7 +129,7 @@ Print Assumptions C20_in_scope_b_sound.
     defaults, a file with a list hole, an overriding variable, a variable that
     extends a list and one with a literal underscore *)
 Theorem C20_domain_nonvacuous :
-  exists tenv, domain (fun s => Leaf s) "P_" ex_d ex_f ex_env tenv /\ length tenv = 3.
+  exists tenv, domain true (fun s => Leaf s) "P_" ex_d ex_f ex_env tenv /\ length tenv = 3.
 Proof. exact domain_nonvacuous. Qed.
 Print Assumptions C20_domain_nonvacuous.
 
@@ -136,7 +139,7 @@ Print Assumptions C20_domain_nonvacuous.
     [split_of] checkable on finitely many paths) *)
 Theorem C20_split_example :
   exists tenv,
-    domain (fun s => Leaf s) "P_" [] ex_cf ex_cenv tenv /\ domain (fun s => Leaf s) "P_" [] ex_c [] [] /\
+    domain true (fun s => Leaf s) "P_" [] ex_cf ex_cenv tenv /\ domain true (fun s => Leaf s) "P_" [] ex_c [] [] /\
     split_of ex_c ex_cf tenv.
 Proof. exact split_example. Qed.
 Print Assumptions C20_split_example.
@@ -167,20 +170,29 @@ Theorem C20_F1_rows_all_disagree :
 Proof. exact F1_rows_all_disagree. Qed.
 Print Assumptions C20_F1_rows_all_disagree.
 
-Theorem C20_F3_refuted :
+(** C20-F3 as it was before 0f39207 ([fix3 = false]): the pinned behaviour *)
+Theorem C20_F3_pinned_refuted :
   exists env env' p,
     Permutation env env' /\
     guard_F3 (norm_env "P_" env) = true /\ guard_F4 (norm_env "P_" env) = false /\
     top_view p (load (sh_bits []) tr_id false false "P_" [] None env) <>
     top_view p (load (sh_bits []) tr_id false false "P_" [] None env').
 Proof. exact F3_refuted. Qed.
-Print Assumptions C20_F3_refuted.
+Print Assumptions C20_F3_pinned_refuted.
+
+(** ... and the repaired code on the same witness, in either order *)
+Theorem C20_F3_repaired_on_witness :
+  forall env, Permutation [("P_M_L_0", "x"); ("P_M_L_1", "y")] env ->
+    load (sh_bits []) tr_id true false "P_" [] None env
+    = Ok [(K "m", Map [(K "l", Lst [Leaf "x"; Leaf "y"])])].
+Proof. exact F3_repaired_on_witness. Qed.
+Print Assumptions C20_F3_repaired_on_witness.
 
 Theorem C20_F4_refuted :
   exists env nk v r,
     norm_env "P_" env = [(nk, v)] /\
     guard_F4 (norm_env "P_" env) = true /\ guard_F3 (norm_env "P_" env) = false /\
-    load (sh_bits []) tr_id false false "P_" [] None env = Ok r /\
+    load (sh_bits []) tr_id true false "P_" [] None env = Ok r /\
     view (parse_path nk) (Map r) <> NLeaf v.
 Proof. exact F4_refuted. Qed.
 Print Assumptions C20_F4_refuted.
